@@ -152,7 +152,7 @@ func (x *Exec) stepValue1(st *State, in ssa.Value) {
 		k := x.mapKey(st, x.val(st, in.Index), pos)
 		val, present := x.mapRead(st, xv.T, k)
 		et := in.X.Type().Underlying().(*types.Map).Elem()
-		st.assume(x.wf(val, et))
+		st.assume(x.wfA(st, val, et))
 		st.assume(Implies(Not(present), Eq(val, x.P.zeroOf(et))))
 		st.assume(Implies(Eq(xv.T, Int(0)), Not(present)))
 		if in.CommaOk {
@@ -167,7 +167,7 @@ func (x *Exec) stepValue1(st *State, in ssa.Value) {
 		if _, ok := in.X.Type().Underlying().(*types.Pointer); ok {
 			payload = v.T
 		} else {
-			payload = x.fresh("boxed", SInt)
+			payload = x.freshAlloc(st)
 			st.allocs++
 		}
 		x.setVal(st, in, Val{T: MkIface(Int(int64(id)), payload), Ty: in.Type()})
@@ -222,9 +222,10 @@ func (x *Exec) freshAlloc(st *State) Term {
 	n := fmt.Sprintf("alloc!%d", x.nfresh)
 	x.declare(n, SInt)
 	a := Term{n, SInt}
-	// objects allocated during the call lie above brk!, at distinct addresses
-	x.declare("brk!", SInt)
-	st.assume(And(Lt(Int(0), a), Eq(a, Add(Term{"brk!", SInt}, Int(int64(x.nfresh))))))
+	// a new object sits at the allocation frontier, which then advances
+	nx := x.frontier(st)
+	st.assume(And(Lt(Int(0), a), Eq(a, nx)))
+	st.next = Add(nx, Int(1))
 	return a
 }
 
@@ -497,7 +498,7 @@ func (x *Exec) doUnOp(st *State, in *ssa.UnOp) {
 	case token.MUL:
 		x.nonNil(st, a, pos, "load through pointer")
 		v := x.derefVal(st, a, in.X.Type())
-		st.assume(x.wf(v.T, v.Ty))
+		st.assume(x.wfA(st, v.T, v.Ty))
 		x.setVal(st, in, v)
 	case token.XOR:
 		r := x.fresh("bitnot", SInt)
